@@ -81,8 +81,11 @@ def ledger_finish(ctx, ledger, st):
             prev = []
             if os.path.exists(path) and os.environ.get("VERIF_RECORD_MERGE") == "1":
                 prev = open(path, errors="replace").read().splitlines()
+            allv = sorted(set(lines + prev))
+            if len(allv) > 20000:   # large ledger: keep hash + root-cause label only
+                allv = sorted(set(" ".join(l.split(" ", 2)[:2]) for l in allv))
             with open(path, "w") as f:
-                f.write("\n".join(sorted(set(lines + prev))) + "\n")
+                f.write("\n".join(allv) + "\n")
             os.remove(new)
             common.log("recorded %d failing inputs into %s" % (len(lines), ledger))
         return
